@@ -93,6 +93,25 @@ def is_inf(x) -> bool:
 
 
 # --------------------------------------------------------------------------------------
+# z3's own timeout is not honoured inside nlsat; enforce it with an interrupt
+
+
+def timed_check(solver, seconds):
+    """solver.check() with a hard wall-clock limit; returns 'sat' | 'unsat' | 'unknown'."""
+    import threading
+    timer = threading.Timer(max(0.05, seconds), solver.ctx.interrupt)
+    timer.daemon = True
+    timer.start()
+    try:
+        r = str(solver.check())
+    except z3.Z3Exception:
+        r = "unknown"
+    finally:
+        timer.cancel()
+    return r
+
+
+# --------------------------------------------------------------------------------------
 # linearity test (UF applications are opaque atoms: EUF + LRA is cheap)
 
 _lin_cache = {}
@@ -214,7 +233,7 @@ class Engine:
         s.push()
         if lin:
             s.add(extra)
-        r = str(s.check())
+        r = timed_check(s, self.timeout_ms / 1000.0)
         s.pop()
         self.queries += 1
         if r != "unsat" and (self._nonlinear or not lin or self.axiom_hooks) and self.full_feasibility:
@@ -225,7 +244,7 @@ class Engine:
             f.add(self.pc)
             f.add(self.current_axioms())
             f.add(extra)
-            r2 = str(f.check())
+            r2 = timed_check(f, self.full_timeout_ms / 1000.0 * 1.5)
             self.queries += 1
             if r2 == "unsat":
                 r = "unsat"
@@ -300,7 +319,7 @@ def cur() -> Engine:
 
 
 def explore(fn, max_paths=200, timeout_ms=20000, max_decisions=400, on_exception=None,
-            engine_setup=None):
+            engine_setup=None, deadline=None):
     """Run fn() under every feasible decision sequence (DFS by re-execution).
 
     Returns (results, info) where results is a list of (engine, outcome) and outcome is
@@ -312,7 +331,7 @@ def explore(fn, max_paths=200, timeout_ms=20000, max_decisions=400, on_exception
     results = []
     info = {"paths": 0, "aborted": 0, "bound_hit": False, "solver_time": 0.0, "queries": 0}
     while stack:
-        if info["paths"] >= max_paths:
+        if info["paths"] >= max_paths or (deadline is not None and time.time() > deadline):
             info["bound_hit"] = True
             break
         pre = stack.pop()
